@@ -29,6 +29,7 @@ func init() {
 type c12Scenario struct {
 	Kind    string  `json:"kind"` // handler | actor
 	Cap     int     `json:"cap"`
+	Default bool    `json:"default_handler,omitempty"`
 	Tree    []int   `json:"tree,omitempty"` // parent index of actor i (actor 0 is the root, parent -1)
 	Senders [][]int `json:"senders"`        // per sender: target mailbox index of each item
 	Yields  int     `json:"yields_in_work"`
@@ -62,6 +63,7 @@ func genC12(t *simrt.Tape, tier string) Scenario {
 	sc := &c12Scenario{probes: map[string]int{}}
 	sc.Kind = []string{"handler", "actor"}[t.Choose(2)]
 	sc.Cap = []int{0, 1, 3, 8}[t.Choose(4)]
+	sc.Default = sc.Kind == "handler" && t.Bool(1, 5)
 	maxS, maxItems := 4, 4
 	if tier == "thorough" {
 		if t.Bool(1, 3) {
@@ -128,7 +130,16 @@ func (sc *c12Scenario) Run(s *simrt.Sim) {
 	var hd *fpgo.HandlerDef
 	var actors []*fpgo.ActorDef[int]
 	if sc.Kind == "handler" {
-		if sc.Cap == 0 {
+		if sc.Default {
+			// the library's default Handler: the package's init functions are re-run inside this
+			// simulation (SimReinit exists in the instrumented copy only), so that the default instance
+			// and the goroutine(s) serving it are simulated threads
+			fpgo.SimReinit()
+			hd = fpgo.Handler.GetDefault()
+			if t0 := (&fpgo.HandlerDef{}).GetDefault(); t0 != hd {
+				sc.extra = append(sc.extra, Violation{Clause: "api-smoke", Fingerprint: "GetDefault-differs", Detail: "GetDefault() returns different handlers depending on the receiver"})
+			}
+		} else if sc.Cap == 0 {
 			hd = fpgo.Handler.New()
 		} else {
 			hd = fpgo.Handler.NewByCh(make(chan func(), sc.Cap))
